@@ -6,6 +6,8 @@
 From Coq Require Import List NArith String Bool.
 From Model Require Import Base Names Flt Matches Cd.
 From Proofs Require Import FloatLaws CdFacts.
+From Model Require Import F32.
+From Proofs Require Import F32Laws.
 Import ListNotations.
 
 (* the result at any threshold is: keep the visited pairs whose score reaches it, one entry per
@@ -62,3 +64,16 @@ Theorem C19_coherence_is_first_score :
   forall FO (m : cmatch FO) L s rest, m_coh FO m = (L, s) :: rest -> coherence FO m = s /\ hd_error (languages FO m) = Some L.
 Proof. intros FO m L s rest H. unfold coherence, languages. rewrite H. split; reflexivity. Qed.
 Print Assumptions C19_coherence_is_first_score.
+
+(* binary32 instance: no float hypothesis left *)
+Theorem C19_ordered_by_score_binary32 :
+  forall (C : cd_oracles F32ops) t thr include l,
+    coherence_ratio F32ops C t thr include = Some l -> NoDup (keys F32ops l) /\ nonincreasing F32ops l.
+Proof. intros C. exact (C19_ordered_by_score F32ops C F32_CmpLaws). Qed.
+Print Assumptions C19_ordered_by_score_binary32.
+
+Theorem C19_single_chunk_binary32 :
+  forall (C : cd_oracles F32ops) t thr include l,
+    coherence_ratio F32ops C t thr include = Some l -> merge_coherence_ratios F32ops [l] = l.
+Proof. intros C. exact (C19_single_chunk F32ops C F32_CmpLaws F32_FloatLaws). Qed.
+Print Assumptions C19_single_chunk_binary32.
